@@ -49,7 +49,7 @@ struct FF : Runner {
 template <unsigned N1, typename B1, unsigned N2>
 struct II : Runner {
 	II() { fam = FAM_integer; nbits = N1; small = (N1 <= 12); ops1 = {OP_conv};
-		cfg = std::to_string(N1) + "," + std::to_string(N2); }
+		cfg = std::to_string(N1) + "," + std::to_string(N2) + (sizeof(B1) == 1 ? std::string() : "," + std::to_string(8 * sizeof(B1))); }
 	std::string run(int op, const std::vector<std::string>& a) override {
 		return guarded([&]() -> std::string {
 			using A = integer<N1, B1>; using B = integer<N2, B1>;
@@ -89,6 +89,7 @@ template <class R> static void reg() { g_runners.emplace_back(new R()); }
 #define PPAIR(a, b, c, d) reg<PP<a, b, c, d>>(); reg<PP<c, d, a, b>>();
 #define FPAIR(a, b, c, d) reg<FF<a, b, c, d, Modulo>>(); reg<FF<c, d, a, b, Modulo>>(); reg<FF<a, b, c, d, Saturate>>(); reg<FF<c, d, a, b, Saturate>>();
 #define IPAIR(a, b) reg<II<a, uint8_t, b>>(); reg<II<b, uint8_t, a>>();
+#define IPAIRB(a, b, BT) reg<II<a, BT, b>>(); reg<II<b, BT, a>>();
 
 int main(int argc, char** argv) {
 #if PART == 0
@@ -113,6 +114,8 @@ int main(int argc, char** argv) {
 #else
 	FPAIR(8, 4, 8, 2) FPAIR(8, 4, 12, 8) FPAIR(8, 0, 16, 8) FPAIR(10, 5, 6, 2) FPAIR(12, 6, 8, 6) FPAIR(16, 8, 32, 16) FPAIR(16, 12, 16, 4) FPAIR(24, 12, 12, 4)
 	IPAIR(8, 12) IPAIR(8, 16) IPAIR(9, 7) IPAIR(12, 33) IPAIR(16, 32) IPAIR(24, 17) IPAIR(32, 64) IPAIR(65, 31) IPAIR(12, 4)
+	// other block types, sizes that do not fill their top block
+	IPAIRB(8, 16, uint16_t) IPAIRB(12, 40, uint16_t) IPAIRB(16, 32, uint32_t) IPAIRB(33, 64, uint32_t) IPAIRB(20, 72, uint32_t) IPAIRB(24, 64, uint64_t) IPAIRB(40, 128, uint64_t) IPAIRB(5, 8, uint8_t) IPAIRB(7, 9, uint16_t)
 #endif
 	return drv_main(argc, argv);
 }
